@@ -978,6 +978,9 @@ class Interp:
                         out.append(x)
                     else:
                         out.append(None)
+            if base in ("BitOr", "BitXor") and all(x == 0 or y == 0 for x, y in zip(ba, bb_)):
+                # no position where both may be set: no carries, a | b == a ^ b == a + b
+                return IntV(a.aff + b.aff, it, bits=tuple(out) if any(x is not None for x in out) else None)
             return self.from_bits(st, tuple(out), it, base.lower())
         if base in ("Shl", "Shr"):
             if it[1]:
